@@ -86,3 +86,57 @@ O(id="C17.hash_range", props=["C17"], harness="harness/c17_hashtable.c", entry="
   defines=["KT=0", "MODE=0", "ORDER=2"], unwind=2,
   functions=["hs_hash32", "hs_hash6432shift"], symbolic="key (all 2^32 / 2^64), order 2..13", bounds="none",
   stubs=[], assumes=[])
+
+# ------------------------------------------------------------------------------------------------ buffered socket steps (C09 C10 C05 C11)
+_bs = dict(harness="harness/bs_steps.c", unwind=8,
+           stubs=["socket_writev_with_prefix: accepts any prefix >=1 byte of the gathered buffers, EAGAIN, or EPIPE (symbolic)",
+                  "socket_read: delivers 1..count arbitrary bytes, 0 (FIN), EAGAIN or ECONNRESET (symbolic)",
+                  "memcpy/memmove: byte-loop stubs (symbolic lengths)", "jet_memmem: reference first-occurrence search (glibc memmem contract)",
+                  "log_err: empty"],
+           fp_restrict=["error_function.function_pointer_call.1/on_error"],   # (goto-instrument mis-handles restricted calls inside loops: only this non-loop site is restricted)
+           config={"CONFIG_MAX_WRITE_BUFFER_SIZE": 4, "CONFIG_MAX_MESSAGE_SIZE": 4})
+_bs3 = dict(_bs, unwind=5, config={"CONFIG_MAX_WRITE_BUFFER_SIZE": 4, "CONFIG_MAX_MESSAGE_SIZE": 3},
+            unwindset={"get_read_ptr.0": 5, "internal_read_until.0": 5, "verif_memmove.0": 4, "verif_memmove.1": 4, "socket_read.0": 4,
+                       "strlen.0": 4, "go_reading.0": 3, "jet_memmem.0": 3, "jet_memmem.1": 4})
+_bs4 = dict(_bs, unwind=6, tier="thorough", config={"CONFIG_MAX_WRITE_BUFFER_SIZE": 4, "CONFIG_MAX_MESSAGE_SIZE": 4},
+            unwindset={"get_read_ptr.0": 6, "internal_read_until.0": 6, "verif_memmove.0": 5, "verif_memmove.1": 5, "socket_read.0": 5,
+                       "strlen.0": 4, "go_reading.0": 3, "jet_memmem.0": 3, "jet_memmem.1": 5})
+O(id="C10.writev_step", props=["C10", "C11"], entry="harness_writev", reach=["partial_then_queued", "refused", "hard_error"],
+  functions=["buffered_socket_writev", "copy_iovec_to_write_buffer", "copy_single_buffer", "send_buffer"],
+  symbolic="pending byte count and write-buffer contents, two frame chunks (lengths 0..2 each, contents), kernel verdict of every write call, tracked stream position",
+  assumes=["to_write <= W (representation invariant of the write buffer; proved preserved: C10.pending_count_in_bounds)"],
+  bounds="W=4, frame = 2 chunks of <=2 bytes", timeout={"quick": 600, "thorough": 1800}, **_bs)
+O(id="C10.flush_step", props=["C10"], entry="harness_flush", reach=["flush_would_block_with_rest"],
+  functions=["write_function", "send_buffer"],
+  symbolic="pending byte count and contents, kernel verdict of every write call, tracked stream position",
+  assumes=["to_write <= W"], bounds="W=4", **_bs)
+O(id="C09.read_exact_step", props=["C09", "C06"], entry="harness_read_exactly", reach=["handed_tracked", "partial_then_block"],
+  functions=["get_read_ptr", "fill_buffer", "reorganize_read_buffer"],
+  symbolic="read/write pointer positions, buffer contents, requested count 1..M+2, every kernel read verdict/amount/bytes, tracked stream position",
+  assumes=["read_buffer <= read_ptr <= write_ptr <= read_buffer+M (proved preserved: C09.reader_invariant_preserved)"],
+  bounds="M=3", **_bs3)
+O(id="C09.read_exact_step_m4", props=["C09", "C06"], entry="harness_read_exactly", reach=["handed_tracked", "partial_then_block"],
+  functions=["get_read_ptr", "fill_buffer", "reorganize_read_buffer"],
+  symbolic="read/write pointer positions, buffer contents, requested count 1..M+2, every kernel read verdict/amount/bytes, tracked stream position",
+  assumes=["read_buffer <= read_ptr <= write_ptr <= read_buffer+M (proved preserved: C09.reader_invariant_preserved)"],
+  bounds="M=4", **_bs4)
+O(id="C09.read_until_step", props=["C09", "C06", "C13"], entry="harness_read_until", reach=["line_after_read", "line_too_long"],
+  functions=["internal_read_until", "fill_buffer", "reorganize_read_buffer"],
+  symbolic="read/write pointer positions, buffer contents, every kernel read verdict/amount/bytes, tracked stream position; delimiter CRLF",
+  assumes=["read_buffer <= read_ptr <= write_ptr <= read_buffer+M"], bounds="M=3", **_bs3)
+O(id="C09.read_until_step_m4", props=["C09", "C06", "C13"], entry="harness_read_until", reach=["line_after_read", "line_too_long"],
+  functions=["internal_read_until", "fill_buffer", "reorganize_read_buffer"],
+  symbolic="read/write pointer positions, buffer contents, every kernel read verdict/amount/bytes, tracked stream position; delimiter CRLF",
+  assumes=["read_buffer <= read_ptr <= write_ptr <= read_buffer+M"], bounds="M=4", **_bs4)
+_fpc = ["error_function.function_pointer_call.1/closing_error"]
+_bs3c = dict({k: v for k, v in _bs3.items() if k != "harness"}, fp_restrict=_fpc)
+_bs4c = dict({k: v for k, v in _bs4.items() if k != "harness"}, fp_restrict=_fpc)
+for _w, _wn in ((0, "read_exactly"), (1, "read_until"), (2, "readiness_event")):
+    for _cfg, _sfx, _m in ((_bs3c, "", 3), (_bs4c, "_m4", 4)):
+        O(id="C05.read_after_close_%s%s" % (_wn, _sfx), props=["C05", "C06"], entry="harness_read_after_close",
+          harness="harness/c05_read_close.c",
+          reach=["closed_in_callback"], defines=["WHICH=%d" % _w],
+          functions=["buffered_socket_read_exactly", "buffered_socket_read_until", "read_function", "go_reading", "error_function"],
+          symbolic="requested count, kernel read verdicts/bytes, whether each callback closes (and frees) the socket, loop add verdict",
+          assumes=["the read callback closes at the latest on its 2nd invocation (bounds the read loop)"],
+          bounds="M=%d; entry point %s; heap-allocated socket object really freed by the closing callback" % (_m, _wn), **_cfg)
